@@ -47,18 +47,21 @@ def shift(inp):
                         bad.append({'with_field': with_field, 'subdiv_limit': subdiv, 'tau': ta, 'max_diff': float(err)})
     elif kind == 'controls':
         x = np.arange(16).reshape(4, 4) + 0.0
-        for ta in taus:
-            for post in (False, True):
-                c1, c2 = oqupy.Control(2), oqupy.Control(2)
-                tc = t0 + (step + 0.2) * dt
-                c1.add_single(float(tc), x, post=post)
-                c2.add_single(float(tc + ta), x, post=post)
-                r1 = c1.get_controls(step, dt=dt, start_time=t0)
-                r2 = c2.get_controls(step, dt=dt, start_time=t0 + ta)
-                same = all((a is None and b is None) or (a is not None and b is not None and np.allclose(a, b)) for a, b in zip(r1, r2))
-                hit = (r1[1] if post else r1[0]) is not None
-                if not same or not hit:
-                    bad.append({'tau': ta, 'post': post, 'same': same, 'control_found_without_shift': hit})
+        for ta in taus + [0.04, 0.25 * dt, 0.5 * dt, 10.5 * dt, -0.35 * dt]:
+            for frac in (0.0, 0.2, 0.45, 0.7):
+                for post in (False, True):
+                    c1, c2 = oqupy.Control(2), oqupy.Control(2)
+                    tc = t0 + (step + frac) * dt
+                    c1.add_single(float(tc), x, post=post)
+                    c2.add_single(float(tc + ta), x, post=post)
+                    for st in range(max(0, step - 1), step + 3):
+                        r1 = c1.get_controls(st, dt=dt, start_time=t0)
+                        r2 = c2.get_controls(st, dt=dt, start_time=t0 + ta)
+                        same = all((a is None and b is None) or (a is not None and b is not None and np.allclose(a, b)) for a, b in zip(r1, r2))
+                        if not same:
+                            bad.append({'tau': ta, 'control_time': tc, 'dt': dt, 'start_time': t0, 'step': st, 'post': post,
+                                        'control_present_unshifted': r1[1 if post else 0] is not None,
+                                        'control_present_shifted': r2[1 if post else 0] is not None})
     elif kind == 'parse':
         from oqupy.system_dynamics import _parse_times
         N = 12
